@@ -185,6 +185,12 @@ impl SimDisk {
         self.0.lock().unwrap().frozen = true;
     }
 
+    /// What a kill at this instant would leave under loss model L2 (synced writes only), without
+    /// ending the life of the device.
+    pub fn durable_image(&self) -> Vec<u8> {
+        self.0.lock().unwrap().durable.clone()
+    }
+
     /// Current full image (what a clean shutdown leaves). Must not be used after `freeze`.
     pub fn image(&self) -> Vec<u8> {
         let s = self.0.lock().unwrap();
